@@ -2,9 +2,27 @@
    The model (coq/Model/Where.v) evaluates the generated SQL over the raw index
    rows as SQLite does; these theorems relate it, atom by atom, to the meaning
    the property sentence gives, for CLEAN atoms (no LIKE metacharacters), and
-   refute the unclean ones.  Juxtaposition / | / parentheses are AND / OR /
-   nesting by construction of [and_ok] / [or_ok]. *)
-From Zorg Require Import Base.PyStr Base.Res Base.Dates Model.QueryListener Model.Where Proofs.WhereFacts.
+   refute the unclean ones.  C03_whole_filter_is_its_reading lifts the text and
+   file atoms to WHOLE filters of any nesting (AND / OR / parentheses), and
+   C03_where_returns_exactly_the_satisfying_notes states the result set. *)
+From Zorg Require Import Base.PyStr Base.Res Base.Dates Model.QueryListener Model.Where Proofs.WhereFacts Proofs.WhereSat.
+
+(* any filter tree (and-groups, alternatives, nested sub-filters to the depth the fuel allows) whose text and
+   file atoms contain no LIKE metacharacter: the SQL evaluation equals the evaluation that reads text atoms as
+   (smart-case) literal containment and f= as a *-glob, composed by AND / OR exactly as written *)
+Theorem C03_whole_filter_is_its_reading : forall today ix fuel n f,
+  clean_af fuel f = true -> and_ok today ix fuel n f = and_sat today ix fuel n f.
+Proof. exact and_ok_is_sat. Qed.
+
+Theorem C03_where_returns_exactly_the_satisfying_notes : forall today ix o,
+  o <> [] -> forallb (clean_af 40) o = true ->
+  eval_where today ix (Some o) =
+  (sel <- seq_res (map (fun n => b <- or_sat today ix n o ;; Ok (n, b)) ix) ;;
+   Ok (sort_str (map (fun nb => i_zid (fst nb)) (filter (fun nb => snd nb) sel)))).
+Proof. exact eval_where_is_filter_sat. Qed.
+
+Theorem C03_text_atom_reading : forall n d, clean_text (df_value d) = true -> desc_ok n d = sat_desc n d.
+Proof. exact desc_ok_sat. Qed.
 
 (* quoted text = smart-case literal containment *)
 Theorem C03_text_case_insensitive_partial : forall n v neg,
@@ -54,6 +72,9 @@ Theorem C03_negated_link_refuted :
   link_ok [] (w_note 1 "240101#00" "links elsewhere" [S "c"]) (S "b", false) = false.
 Proof. exact negated_link_refuted. Qed.
 
+Print Assumptions C03_whole_filter_is_its_reading.
+Print Assumptions C03_where_returns_exactly_the_satisfying_notes.
+Print Assumptions C03_text_atom_reading.
 Print Assumptions C03_text_case_insensitive_partial.
 Print Assumptions C03_text_case_sensitive_partial.
 Print Assumptions C03_like_is_containment.
